@@ -1,6 +1,8 @@
 import PatchModel.Model.Basic
 import PatchModel.Model.Locator
+import PatchModel.Model.Stream
 import PatchModel.Model.Format
 import PatchModel.Model.Applier
 import PatchModel.Proto
 import PatchModel.Spec.Place
+import PatchModel.Spec.Script
